@@ -750,6 +750,13 @@ func (s *c20State) opOpen() {
 	}
 	// what the stored manifest says (the oracle's own reading, through the public loader)
 	stored, lerr, _ := s.load()
+	// safety of the harness: tampering can turn the stored directories into other valid paths
+	// (a flipped bit inside "$R" makes the path relative); never let the engine create
+	// directories outside the scratch root. The model runner applies the same rule (prefix "$R/").
+	if lerr == nil && (!strings.HasPrefix(stored.WALDir, s.root+"/") || !strings.HasPrefix(stored.SSTDir, s.root+"/")) {
+		s.out("O unsafe-dirs")
+		return
+	}
 	if lerr == nil {
 		if doc := c20Documented(stored); doc != "" {
 			// the loader let an invalid stored configuration through: for the oracle it is invalid
